@@ -379,3 +379,11 @@ Lemma inline_rt_refuted_lemma :
   cscan cstd_limits (op_format (image_op f9_dict f9_data))
   = Some [image_op (scanned_dict f9_dict) [97]; mkOp [98] []; mkOp n_EI []].
 Proof. repeat split; vm_compute; reflexivity. Qed.
+
+Lemma inline_rt_refuted_stmt : exists d data,
+  dict_get2 d k_L k_Length = None /\
+  cscan cstd_limits (op_format (image_op d data)) <> Some [image_op (scanned_dict d) data].
+Proof.
+  exists f9_dict, f9_data. destruct inline_rt_refuted_lemma as (H1 & _ & H3).
+  split; [exact H1|]. rewrite H3. discriminate.
+Qed.
